@@ -122,7 +122,14 @@ def _misc_paths(interp, segs, args, hint, generics):
     if ty == 'WalkDir' and name == 'new':
         return Struct('WalkDir', {'root': FS.pstr(args[0])})
     if ty == 'Utc' and name == 'now':
-        return Struct('DateTime', {})
+        # the clock advances with every reading (per modelled world): two runs never see the same instant, so a
+        # timestamp that leaks into a hash or a comparison shows up as a difference
+        w = getattr(interp, 'fs', None)
+        tick = 0
+        if w is not None:
+            w.clock += 1
+            tick = w.clock
+        return Struct('DateTime', {'t': tick})
     if ty in ('SystemTime', 'Instant') and name == 'now':
         return Struct('SystemTime', {'t': Opaque('now', None)})
     if ty == 'io' and name in ('stdout', 'stderr', 'stdin'):
@@ -137,7 +144,7 @@ class DateTimeModel:
     @staticmethod
     def call_method(i, v, name, a, pl, h, tf, ctx):
         if name in ('to_rfc3339', 'to_rfc3339_opts', 'to_string', 'format', 'timestamp'):
-            return Str((Opaque('timestamp', None),))
+            return Str((Opaque('timestamp', v.f.get('t', 0)),))
         return NotImplemented
 
 
